@@ -687,7 +687,15 @@ struct Sim {
 }
 
 const NAMES: [&str; 7] = ["a", "b", "proc", "worker", "sh", "render thread", "x"];
-const PATHS: [&str; 4] = ["/nonexistent-verif/bin/app", "/nonexistent-verif/lib/libfoo.so", "/nonexistent-verif/lib/libbar.so.1", "/nonexistent-verif/opt/tool"];
+// two of the paths share a file name (libraries are identified by path, not by name)
+const PATHS: [&str; 6] = [
+    "/nonexistent-verif/bin/app",
+    "/nonexistent-verif/lib/libfoo.so",
+    "/nonexistent-verif/lib/libbar.so.1",
+    "/nonexistent-verif/opt/tool",
+    "/nonexistent-verif/opt/app/lib/libfoo.so",
+    "/nonexistent-verif/opt/app/bin/app",
+];
 
 pub fn gen_history(rng: &mut Rng, shape: &Shape) -> History {
     let violate = rng.below(100) < shape.violate_pct;
